@@ -381,7 +381,30 @@ func c14Traits(prog *wgen.Program, om ovMap) string {
 			})
 		}, nil)
 	}
+	negIntOverride := false
+	for _, f := range prog.M.Funcs() {
+		wgen.WalkStmts(f.Body, nil, func(e wgen.Expr) {
+			u, ok := e.(*wgen.Unary)
+			if !ok || u.Op != "-" {
+				return
+			}
+			x := u.X
+			for {
+				if p, ok := x.(*wgen.Paren); ok {
+					x = p.X
+					continue
+				}
+				break
+			}
+			if r, ok := x.(*wgen.Ref); ok && r.V.Kind == wgen.VOverride && r.V.Ty.IsInt() {
+				negIntOverride = true
+			}
+		})
+	}
 	var t []string
+	if negIntOverride {
+		t = append(t, "negated-integer-override")
+	}
 	if compositeStoreWithRead {
 		t = append(t, "composite-store-of-constructor-with-buffer-read")
 	}
